@@ -68,6 +68,52 @@ def ref_eval(expr, loc, glb):
         return str(e), True, type(e).__name__
 
 
+def builtin_logger(ctx, n):
+    """The built-in tracepoint logger (deep.api.plugin.python.PythonPlugin): the rendered message reaches the log with
+    the tracepoint id and the context id each in its own place, whatever characters it holds ('%', braces, ...)."""
+    import logging as pylog
+    from deep.api.plugin.python import PythonPlugin
+    from deep.api.tracepoint.trigger import LocationAction, Trigger, LineLocation, Location
+    rng = ctx.rng
+    records = []
+
+    class Capture(pylog.Handler):
+        def emit(self, record):
+            try:
+                records.append(record.getMessage())
+            except Exception as e:          # what logging itself would print as '--- Logging error ---'
+                records.append("UNRENDERABLE: %r" % (e,))
+    handler = Capture()
+    handler.setLevel(pylog.DEBUG)
+    lg = pylog.getLogger("deep")
+    saved = (lg.level, lg.propagate, list(lg.handlers), lg.disabled)
+    lg.setLevel(pylog.INFO)
+    lg.disabled = False
+    lg.addHandler(handler)
+    try:
+        for k in range(n):
+            world = e2.World(logger=False, spans=0, metrics=0)
+            world.cfg.plugins = [PythonPlugin(config=world.cfg)]
+            tpl = rng.choice(["{done}% done", "100%", "rate %s of {a}", "%d items", "plain", "{s}", "a=%(a)s {a}", "50%% {{x}}", "{pct}"])
+            loc = {"done": 40, "a": 3, "s": rng.choice(["%s", "100%", "ok"]), "pct": "%"}
+            action = LocationAction("tp-py", None, {"fire_count": "-1", "fire_period": "0", "log_msg": tpl}, LocationAction.ActionType.Log)
+            world.install([Trigger(LineLocation("m.py", 7, Location.Position.START), [action])])
+            del records[:]
+            _, exc = world.event(e2.mk_frame("/app/m.py", "g", 7, loc), "line")
+            want = "[deep] " + tpl.replace("{{", "\x00").replace("}}", "\x01").format(**loc).replace("\x00", "{").replace("\x01", "}")
+            j = dict(builtin_logger=True, template=tpl, s=loc["s"])
+            ctx.case(j, nontrivial="%" in want, bucket="builtin-logger")
+            mine = [r for r in records if "tracepoint=" in r or "UNRENDERABLE" in r or want in r]
+            if exc is not None:
+                ctx.fail("the handler raised %r" % (exc,), j, tag="raised")
+            elif len(mine) != 1 or not mine[0].startswith(want + " ") or not mine[0].endswith("tracepoint=tp-py") or " ctx=" not in mine[0]:
+                ctx.fail("built-in logger emitted %r for the message %r of tracepoint 'tp-py'" % (mine, want), j, tag="builtin-logger")
+    finally:
+        lg.removeHandler(handler)
+        lg.setLevel(saved[0])
+        lg.disabled = saved[3]
+
+
 def run(ctx):
     import logging
     logging.getLogger("deep").setLevel(logging.CRITICAL + 1)
@@ -180,6 +226,8 @@ def run(ctx):
             flits.append("{| fc_tpl := %s; fc_obs_fields := %s |}" % (L.s(tpl), L.lst(L.s(f) for f in cpy_fields)))
             fcj.append(j)
     world.clear_pending()
+    builtin_logger(ctx, 120 if ctx.thorough else 30)
+    logging.getLogger("deep").setLevel(logging.CRITICAL + 1)
     ctx.correspond("render", IMPORTS, "tpl_case", "check_tpl_case", lits, cj, shard=150)
     ctx.correspond("scanner_vs_cpython", IMPORTS, "fields_case", "check_fields_case", flits, fcj, shard=150)
 
